@@ -709,18 +709,37 @@ impl<'ast, 's> Visit<'ast> for ForToWhilePass<'s> {
         let body_open = range(l.body.brace_token.span.open()).start;
         let body_close = range(l.body.brace_token.span.close()).end;
         let pat = &self.src[range(l.pat.span())];
+        // `for &x in ..` (Verus has no reference patterns): bind the reference, copy out of it at the top of the body
+        let mut deref_bind = String::new();
+        let pat_owned;
+        let pat = if let syn::Pat::Reference(rp) = &*l.pat {
+            if let syn::Pat::Ident(pi) = &*rp.pat {
+                pat_owned = format!("verif_ref_{}", self.k);
+                deref_bind = format!(" let {} = *{};", pi.ident, pat_owned);
+                pat_owned.as_str()
+            } else { pat }
+        } else { pat };
         let it = &self.src[range(l.expr.span())];
         // an array literal iterated by value (no vstd spec for core::array::IntoIter): its elements, in order, through a stand-in
         let arr;
-        let it = if let syn::Expr::Array(a) = &*l.expr {
-            arr = format!("verif_array_iter(vec![{}])", a.elems.iter().map(|e| &self.src[range(e.span())]).collect::<Vec<_>>().join(", "));
-            arr.as_str()
-        } else { it };
+        let it: String = if let syn::Expr::Array(a) = &*l.expr {
+            arr = format!("verif_into_iter(vec![{}])", a.elems.iter().map(|e| &self.src[range(e.span())]).collect::<Vec<_>>().join(", "));
+            arr
+        } else {
+            // `for` calls IntoIterator::into_iter on whatever it is given: the stand-in trait `VerifIntoIter` of the prelude says
+            // what that yields for the collection types in use (identity on an iterator)
+            format!("verif_into_iter({it})")
+        };
+        let it = it.as_str();
         let label = match &l.label { Some(lb) => format!("{} ", &self.src[range(lb.span())]), None => String::new() };
         let k = self.k;
         self.k += 1;
         self.edits.push(Edit { start, end: body_open, text: format!("{{ let mut verif_it_{k} = {it}; {label}while let Some({pat}) = verif_it_{k}.next() "), rule: "N21" });
         self.edits.push(Edit { start: body_close, end: body_close, text: " }".into(), rule: "N21" });
+        if !deref_bind.is_empty() {
+            let after_open = range(l.body.brace_token.span.open()).end;
+            self.edits.push(Edit { start: after_open, end: after_open, text: deref_bind, rule: "N21" });
+        }
         visit::visit_expr_for_loop(self, l);
     }
 }
